@@ -21,6 +21,7 @@ type RunOpts struct {
 	CheckCoverage    bool // C11: every id below the data end marker is accounted for
 	CheckLockIdle    bool // C09a: lock state idle between transactions
 	CheckStats       bool // C11: FileStats equal reality
+	CheckSpace       bool // C11: probe + live + meta area + 2 == max pages; extent <= max size
 	CheckReopenState bool // C10: internal state before Close equals state after Open
 	Record           bool // record observations for twin comparisons
 	Drain            bool // wait for the background writer after scheduling calls
@@ -305,6 +306,10 @@ func (r *Runner) RunItem(i int, it *Item) *Violation {
 		}
 	case it.Reopen != nil:
 		if v := r.reopen(it.Reopen); v != nil {
+			return v
+		}
+	case it.Misuse:
+		if v := r.MisuseMatrix(); v != nil {
 			return v
 		}
 	case it.Probe:
@@ -1209,6 +1214,33 @@ func (r *Runner) quiescentChecks() *Violation {
 		if v := r.checkStats(); v != nil {
 			return v
 		}
+	}
+	if r.O.CheckSpace && r.bounded() {
+		if v := r.checkSpace(); v != nil {
+			return v
+		}
+	}
+	return nil
+}
+
+// checkSpace is the space conservation oracle of C11.
+func (r *Runner) checkSpace() *Violation {
+	n, v := r.Probe()
+	if v != nil {
+		return v
+	}
+	live := len(r.C.Pages)
+	metaArea := int(r.F.VerifState().MetaTotal)
+	if r.Obsv.HaveLast {
+		metaArea = int(r.Obsv.Last.MetaArea)
+	}
+	if n+live+metaArea+2 != int(r.curMax) {
+		return violationf("space-equation", r.curItem, "allocatable %d + live %d + meta area %d + 2 header pages = %d, configured maximum is %d pages",
+			n, live, metaArea, n+live+metaArea+2, r.curMax)
+	}
+	maxSize := int64(r.curMax) * int64(r.P.Cfg.PageSize)
+	if ext := r.Disk.MaxExtent(); ext > maxSize {
+		return violationf("extent", r.curItem, "file grew to %d bytes, maximum size is %d", ext, maxSize)
 	}
 	return nil
 }
